@@ -4,7 +4,7 @@ CONSTANTS
   SHAPES <- T_SHAPES
   RANKS = {1, 2, 4}
   EPSEXP = {10, 6, 3}
-  GUESS = {"none", "fresh", "exact1", "exact2"}
+  GUESS = {"none", "fresh", "zero", "exact1", "exact2"}
   SEEDS = {1, 2, 3}
   BACKENDS = {"cpp"}
   PREC = {"none", "c", "r"}
